@@ -123,9 +123,9 @@ HISTORY_POOL = {
         'globally: no a {foo(x) > 1}', '# id: last globally: no a # id: dangling', 'until e: b requires c within 1 s', 'globally: no (a or a)',
         '# description: "a" # description: "a" globally: no a', 'after a as M: no b {exists i in xs: @i > @M.y} globally: no b {x > 0}', 'globally: no a {x = 1.0}', 'globally: no a {x = 1}', 'globally: no a {x = 10} globally: no b {x = 1e1}',
     ],
-    'pred': ['{x = 1.0}', '{x = 1}', '{x = 1e0 or y = 2.50}', '{y = 2.5}', '{x > 1}', '{x', '{x and 1}', '{foo(x) > 1}', '{True}', '{forall i in xs: p}', '{p}', '{x > 1} }', '', '{@A.x = x}', '{not False}', '{x in {1,2}}', '{1 +}', '{len(xs) > 0}'],
-    'expr': ['x = 1.0', 'x = 1', 'x = 1e0 or y = 2.50', 'y = 2.5', 'x > 1', 'x >', 'x and 1', 'foo(x)', 'True', 'forall i in xs: p', 'p', ')', '', '@A.x = x', 'not False', 'x in {1,2}', '1 +', 'len(xs)'],
-    'cond': ['x = 1.0', 'x = 1', 'x = 1e0 or y = 2.50', 'y = 2.5', 'x > 1', 'x >', 'x and 1', 'foo(x)', 'True', 'forall i in xs: p', 'p', ')', '', '@A.x = x', 'False', 'x + 1', '1 +', 'len(xs) > 0'],
+    'pred': ['{s = "a  b"}', '{s = "a b"}', '{s = "a\tb" or s = "a b"}', '{forall x in xs: (b and exists x in ys: @x > 0)}', '{x = 1.0}', '{x = 1}', '{x = 1e0 or y = 2.50}', '{y = 2.5}', '{x > 1}', '{x', '{x and 1}', '{foo(x) > 1}', '{True}', '{forall i in xs: p}', '{p}', '{x > 1} }', '', '{@A.x = x}', '{not False}', '{x in {1,2}}', '{1 +}', '{len(xs) > 0}'],
+    'expr': ['s = "a  b"', 's = "a b"', 's = "a\tb"', 'x = 1.0', 'x = 1', 'x = 1e0 or y = 2.50', 'y = 2.5', 'x > 1', 'x >', 'x and 1', 'foo(x)', 'True', 'forall i in xs: p', 'p', ')', '', '@A.x = x', 'not False', 'x in {1,2}', '1 +', 'len(xs)'],
+    'cond': ['s = "a  b"', 's = "a b"', 's = "a\tb"', 'x = 1.0', 'x = 1', 'x = 1e0 or y = 2.50', 'y = 2.5', 'x > 1', 'x >', 'x and 1', 'foo(x)', 'True', 'forall i in xs: p', 'p', ')', '', '@A.x = x', 'False', 'x + 1', '1 +', 'len(xs) > 0'],
 }
 
 
